@@ -60,6 +60,9 @@ impl GlideProcessor {
 
         self.cached_t = t;
 
+        // -0.0 is as much "no glide" as 0.0, but its reciprocal is negative infinity which would select the slowest glide
+        let t = if t == 0.0_f32 { 0.0_f32 } else { t };
+
         let f0 = (1.0_f32 / t).max(self.min_fc).min(self.max_fc);
         self.lpf.update_coefficients(coeffs(self.fs, f0.hz()))
     }
